@@ -189,7 +189,7 @@ def EvWithin (P : List PatEntry) (E : List (Nat × Nat)) : Event → Prop
   | _ => True
 
 theorem within_init (P : List PatEntry) (E : List (Nat × Nat)) : Within P E initRoute :=
-  ⟨fun e he => by cases he, fun p s hs => by cases hs⟩
+  ⟨fun e he => (by cases he), fun p s hs => (by cases hs)⟩
 
 theorem within_step (P : List PatEntry) (E : List (Nat × Nat)) (r : Route) (ev : Event)
     (h : Within P E r) (he : EvWithin P E ev) : Within P E (stepRoute r ev) := by
@@ -294,7 +294,7 @@ theorem routed_by_latest_pat (pre post : List Event) (ver : Nat) (es : List PatE
     (hcf : CollisionFree (pre ++ .patApplied ver es :: post))
     (hlast : ∀ ev ∈ post, ∀ v es', ev ≠ .patApplied v es')
     (hq : lastFor (patRequests es) q = some req) :
-    routeOf (run initRoute (pre ++ .patApplied ver es :: post)) q = some (kindOf req) := by
+    ∃ tag, (run initRoute (pre ++ .patApplied ver es :: post)).slots q = some (req, tag) := by
   obtain ⟨-, -, -, hc4, -⟩ := hcf
   generalize hP : patEntriesOf (pre ++ .patApplied ver es :: post) = P at hc4
   generalize hE : esPairsOf (pre ++ .patApplied ver es :: post) = E at hc4
@@ -323,7 +323,7 @@ theorem routed_by_latest_pat (pre post : List Event) (ver : Nat) (es : List PatE
     rw [run_append, run_cons]
     have := slot_kept_run q P E a post _ hs2 (within_step P E _ _ hw1 hev)
       (fun ev hm => hall ev (List.mem_append_right _ (List.mem_cons_of_mem _ hm))) ?_
-    · unfold routeOf; rw [this, ← hlt]; rfl
+    · exact ⟨a.2, by rw [this, hlt]⟩
     · intro ev hm r' hw' hs'
       cases ev with
       | patApplied v es' => exact absurd rfl (hlast _ hm v es')
@@ -346,7 +346,7 @@ theorem routed_by_latest_pmt (pre post : List Event) (p ver : Nat) (body : Bytes
     (hcf : CollisionFree (pre ++ .pmtApplied p ver body :: post))
     (hlast : ∀ ev ∈ post, ∀ v b, ev ≠ .pmtApplied p v b)
     (hq : lastFor (pmtReqs p body) q = some req) :
-    routeOf (run initRoute (pre ++ .pmtApplied p ver body :: post)) q = some (kindOf req) := by
+    ∃ tag, (run initRoute (pre ++ .pmtApplied p ver body :: post)).slots q = some (req, tag) := by
   obtain ⟨-, -, -, hc4, hc5⟩ := hcf
   generalize hP : patEntriesOf (pre ++ .pmtApplied p ver body :: post) = P at hc4
   generalize hE : esPairsOf (pre ++ .pmtApplied p ver body :: post) = E at hc4 hc5
@@ -372,7 +372,7 @@ theorem routed_by_latest_pmt (pre post : List Event) (p ver : Nat) (body : Bytes
     rw [run_append, run_cons]
     have := slot_kept_run q P E a post _ hs2 (within_step P E _ _ hw1 hev)
       (fun ev hm => hall ev (List.mem_append_right _ (List.mem_cons_of_mem _ hm))) ?_
-    · unfold routeOf; rw [this, ← hlt]; rfl
+    · exact ⟨a.2, by rw [this, hlt]⟩
     · intro ev hm r' hw' hs'
       have hev' : EvWithin P E ev := hall _ (List.mem_append_right _ (List.mem_cons_of_mem _ hm))
       cases ev with
@@ -486,10 +486,9 @@ theorem dropped_by_next_pat (r : Route) (mid : List Event) (v1 v2 : Nat) (es1 es
     (hmid : ∀ ev ∈ mid, ∀ v es, ev ≠ .patApplied v es)
     (hq : q ∈ es1.map PatEntry.pid) (h13 : q ≤ 0x1fff) (hdrop : q ∉ es2.map PatEntry.pid) :
     routeOf (run r (.patApplied v1 es1 :: mid ++ [.patApplied v2 es2])) q = none := by
-  rw [run_cons, run_append]
-  show routeOf (stepRoute _ _) q = none
+  rw [run_append, run_cons _ _ [], show ∀ r' : Route, run r' [] = r' from fun _ => rfl]
   apply pat_drop_step _ _ _ _ _ h13 hdrop
-  rw [pat_entries_kept_run mid _ hmid]
+  rw [run_cons, pat_entries_kept_run mid _ hmid]
   exact hq
 
 /-- PMT: a PID listed by one version and dropped by the next version applied on the same
@@ -501,10 +500,9 @@ theorem dropped_by_same_pmt_instance (r : Route) (mid : List Event) (p v1 v2 : N
     (hq : q ∈ (streamsOf b1).map StreamInfo.pid) (h13 : q ≤ 0x1fff)
     (hdrop : q ∉ (streamsOf b2).map StreamInfo.pid) :
     routeOf (run r (.pmtApplied p v1 b1 :: mid ++ [.pmtApplied p v2 b2])) q = none := by
-  rw [run_cons, run_append]
-  show routeOf (stepRoute _ _) q = none
+  rw [run_append, run_cons _ _ [], show ∀ r' : Route, run r' [] = r' from fun _ => rfl]
   apply pmt_drop_step _ _ _ _ _ _ h13 hdrop
-  rw [pmt_inst_kept_run p mid _ hmid, stepRoute_pmt_pmt, if_pos rfl]
+  rw [run_cons, pmt_inst_kept_run p mid _ hmid, stepRoute_pmt_pmt, if_pos rfl]
   exact hq
 
 end Ts.Lemmas.C05H
